@@ -185,6 +185,39 @@ func c01Boldyreva[PK interface {
 		}
 		return out
 	}
+	if fault != nil {
+		// the same (long-lived) aggregator first serves an honest session for an earlier message:
+		// nothing it keeps from that session may weaken the checks of the next one
+		earlier := []byte("an earlier message")
+		wctxs, err := makeContexts(tag+"/earlier-session", quorum)
+		if !env.Check(pfx+"/contexts-ok", err == nil, fmt.Sprint(err)) {
+			return
+		}
+		wps := hashmap.NewComparable[sharing.ID, *boldyreva02.PartialSignature[SG, sF, PK, sF, *symalg.T, sF]]()
+		for _, id := range quorum {
+			env.SetActor(fmt.Sprint(id))
+			c, err := side.cosigner(env.R, wctxs[id], shards[id], alg)
+			if !env.Check(pfx+"/cosigner-ok", err == nil, fmt.Sprintf("cosigner %d (earlier session): %+v", id, err)) {
+				return
+			}
+			ps, err := c.ProducePartialSignature(earlier)
+			if !env.Check(pfx+"/partial signature produced", err == nil, fmt.Sprintf("cosigner %d (earlier session): %v", id, err)) {
+				return
+			}
+			wps.Put(id, ps)
+		}
+		env.SetActor("aggregator")
+		_, err = guarded(func() (*bls.Signature[SG, sF, PK, sF, *symalg.T, sF], error) {
+			return agg.Aggregate(wps.Freeze(), earlier)
+		})
+		if err != nil && isBoldyrevaMeasureZero(err) {
+			env.Reach("measure-zero: a partial signature or proof is the identity")
+			return
+		}
+		if !env.Check(pfx+"/the earlier honest session through the same aggregator succeeds", err == nil, fmt.Sprintf("%+v", err)) {
+			return
+		}
+	}
 	psigs := hashmap.NewComparable[sharing.ID, *boldyreva02.PartialSignature[SG, sF, PK, sF, *symalg.T, sF]]()
 	applied := false
 	for _, id := range quorum {
